@@ -552,6 +552,12 @@ type quietTB struct {
 	failed *bool
 }
 
+func (q quietTB) Logf(format string, args ...any) {
+	if strings.Contains(format, "OK, passed") {
+		return
+	}
+	q.T.Logf(format, args...)
+}
 func (q quietTB) Errorf(format string, args ...any) {
 	*q.failed = true
 	q.T.Logf("[rapid] "+format, args...)
